@@ -17,7 +17,8 @@ ID = "C13"
 LEVEL = "model_checking"
 RULE = (
     "clock: every (start, duration, dt, direction, reference) on the lattice, the running clock driven by "
-    "update() for every step, conversions at every step in -3..Nsteps+3; spellings: every spelling of each "
+    "update() for every step, conversions at every step in -3..Nsteps+3, times given as ISO string / numpy datetime64 / datetime instance in rotation, "
+    "reset() after the last update followed by three more updates; spellings: every spelling of each "
     "duration in the set and every string over the alphabet up to the length bound, decided by a reference grammar. "
     "non-trivial clock case = Nsteps>=2 (the clock actually advances) ; non-trivial string = accepted by the reference grammar "
     "or sharing a prefix 'PT' with it; distinct by construction (lattice points)"
@@ -81,10 +82,12 @@ def run_clock(case):
             if sum(1 for v in viols if v["sig"] == sig) < 2:
                 viols.append(util.viol(sig, f"start={case['start']} dur={dur}s dt={dt} rev={case['rev']} ref={case['ref']}: {msg}", sub))
 
+        # the three documented ways of giving a time: ISO string, numpy datetime64, datetime instance (rotated over the durations)
+        conv = [iso, lambda x: np.datetime64(int(x), "s"), lambda x: datetime.datetime(1970, 1, 1) + datetime.timedelta(seconds=int(x))][(dur + case["dt"]) % 3]
         try:
-            kw = dict(start=iso(S), stop=iso(E), dt=dt, time_reversal=case["rev"])
+            kw = dict(start=conv(S), stop=conv(E), dt=dt, time_reversal=case["rev"])
             if ref is not None:
-                kw["reference"] = iso(ref)
+                kw["reference"] = conv(ref)
             tk = TimeKeeper(**kw)
         except SystemExit:
             if dur == 0:
@@ -137,6 +140,15 @@ def run_clock(case):
             for unit, div in (("s", 1), ("h", 3600)):
                 if abs(tk.nctime(unit) - (t(k) - refsec) / div) > 1e-9 * max(1.0, abs(t(k) - refsec)):
                     bad("clock:nctime", f"nctime({unit})={tk.nctime(unit)} at step {k} expected {(t(k) - refsec) / div}")
+        # reset() after any number of updates: whatever step it chooses to go back to, the clock must read start +- step*dt, and keep doing so
+        if hasattr(tk, "reset") and N >= 1:
+            tk.reset()
+            for k in range(3):
+                n += 1
+                if not isinstance(tk.step, (int, np.integer)) or secs(tk.time) != t(int(tk.step)):
+                    bad("clock:reset", f"{k} update() after reset(): step={tk.step} time={tk.time} but step2time(step)={tk.step2time(tk.step)}")
+                    break
+                tk.update()
     return util.result(evals=n, nontrivial=nt, viol=viols, outcomes=sorted(outcomes), states=n, transitions=n, sample=dict(case, durations="..."))
 
 
